@@ -12,9 +12,14 @@ import (
 // C08 — BGZF output conformance, determinism, EOF marker.
 
 type c08Case struct {
-	W     WCase  `json:"w"`
-	WCs   [2]int `json:"other_wcs"` // the script is executed under W.WC and these
-	Fault *Fault `json:"fault,omitempty"`
+	// Boundary > 0: the script is one full incompressible block and the
+	// header carries an Extra subfield sized so that the member is predicted
+	// to be exactly Boundary bytes long (the 64 KiB limit is probed from
+	// both sides).
+	Boundary int    `json:"boundary,omitempty"`
+	W        WCase  `json:"w"`
+	WCs      [2]int `json:"other_wcs"` // the script is executed under W.WC and these
+	Fault    *Fault `json:"fault,omitempty"`
 }
 
 type c08 struct{}
@@ -35,6 +40,23 @@ func (c08) Rule() string {
 
 func (c08) Gen(t *Tape, tier string, run int) interface{} {
 	c := &c08Case{W: genWCase(t, true)}
+	if t.Chance("work", 1, 12) {
+		// a member aimed at the 64 KiB limit
+		c.Boundary = 65530 + t.Draw("work", 10)
+		c.W.Level = t.Pick("work", 0, 0, 1, -1)
+		c.W.Header = HeaderOpts{OS: -1}
+		pl := Payload{Len: bs, Kind: "random", Seed: uint32(t.Draw("work", 1<<30))}
+		c.W.Ops = []WOp{{Op: "write", P: pl}}
+		base := len(EncodeMember(pl.Bytes(), MemberOpts{Level: c.W.Level, OS: 0xff}))
+		if d := c.Boundary - base - 4; d >= 0 {
+			c.W.Header.Extra = []Subfield{{SI1: 'Z', SI2: 'z', Data: make([]byte, d)}}
+		} else {
+			c.Boundary = 0
+		}
+	} else if t.Chance("work", 1, 25) {
+		// a modification time whose little-endian bytes spell the BC subfield prefix
+		c.W.Header.MTime = 0x00024342
+	}
 	c.WCs[0] = wcChoices[t.Draw("work", len(wcChoices))]
 	c.WCs[1] = wcChoices[t.Draw("work", len(wcChoices))]
 	if t.Chance("work", 1, 6) {
@@ -130,9 +152,18 @@ func (c08) Exec(x *Exec, ci interface{}) *Verdict {
 		endsWithMarker := len(img) >= len(SpecEOF) && bytes.Equal(img[len(img)-len(SpecEOF):], SpecEOF)
 		closedOK := werr == nil
 		if c.Fault == nil || len(file.Fired) == 0 {
+			if werr != nil && c.Boundary > specMaxMember {
+				// the header settings are not "small enough for a member to fit
+				// in 64 KiB": outside the quantifier, the writer may refuse
+				x.Probe("boundary_member_refused")
+				return vd
+			}
 			if werr != nil {
 				vd.V = Mismatch("write-api-error", "fault-free writer (wc=%d): op %d: %s", wc, werr.Op, werr.Msg)
 				return vd
+			}
+			if c.Boundary > 0 {
+				x.Probe(fmt.Sprintf("boundary_member_%d_accepted", c.Boundary))
 			}
 			if v := conformance(img[:len(img)-len(SpecEOF)*b2i(endsWithMarker)], written, &w); v != nil {
 				v.Msg = fmt.Sprintf("wc=%d: %s", wc, v.Msg)
